@@ -248,11 +248,13 @@ package plugin
 //@   modifies r.container, ghost openconn
 //@   ensures ctxdone(r.ctx)
 //@   ensures [opens-no-connection] forall p deployer.Plugin :: openconn(p) ==> old(openconn(p))
+//@   ensures [nothing-to-close-once-the-step-is-marked-closed] old(atomicval(&r.closed)) ==> result == nil
 //@ func (*runningStep).forceClose
 //@   requires wfstep(r) && nolocks()
 //@   modifies r.container, ghost openconn
 //@   ensures ctxdone(r.ctx)
 //@   ensures [opens-no-connection] forall p deployer.Plugin :: openconn(p) ==> old(openconn(p))
+//@   ensures [nothing-to-close-once-the-step-is-marked-closed] old(atomicval(&r.closed)) ==> result == nil
 //@ func (*runningStep).forceCloseInternal
 //@   requires wfstep(r) && nolocks()
 //@   modifies r.container, ghost openconn
@@ -299,6 +301,7 @@ package plugin
 //@ func (*runningStep).ForceClose
 //@   requires wfstep(r) && nolocks()
 //@   ensures [nil-result-means-waited] result == nil ==> waited(&r.wg)
+//@   ensures [always-nil] result == nil
 //
 // ---- starting a step; reading a plugin schema ----
 //@ func (*runnableStep).Start
